@@ -130,6 +130,7 @@ struct Best {
     hist: Vec<Op>,
     what: String,
     extra: Value,
+    shortest: Vec<((usize, String), String, Vec<String>)>,
 }
 
 #[derive(Default)]
@@ -144,7 +145,8 @@ struct Acc {
 }
 
 fn rank(h: &[Op]) -> (usize, String) {
-    (h.len(), format!("{h:?}"))
+    let a = alphabet();
+    (h.len(), h.iter().map(|o| char::from(b'a' + a.iter().position(|x| x == o).unwrap_or(25) as u8)).collect())
 }
 
 struct Base {
@@ -159,6 +161,13 @@ fn run_history(acc: &Acc, base: &Base, hist: &[Op]) -> Outcome {
         let mut v = acc.violations.lock().unwrap();
         let e = v.entry(fp).or_default();
         e.count += 1;
+        let r = rank(hist);
+        if e.shortest.len() < 6 || r < e.shortest.last().unwrap().0 {
+            e.shortest.push((r, base.label.to_string(), hist.iter().map(|o| o.describe()).collect()));
+            e.shortest.sort();
+            e.shortest.dedup();
+            e.shortest.truncate(6);
+        }
         if e.count == 1 || (rank(hist), base.label) < (rank(&e.hist), e.extra["base_transaction"].as_str().unwrap_or("")) {
             e.hist = hist.to_vec();
             e.what = what;
@@ -316,11 +325,34 @@ pub fn run(ctx: Ctx) -> ! {
         stats.push((base.label, s));
     }
 
+    // Named scenarios of DESIGN.md section 7, each on its own accumulator (diagnostic listing;
+    // the exploration above already contains them).
+    let named: Vec<(&str, Vec<Op>)> = vec![
+        ("removal of an absent key on an unsigned transaction", vec![Op::Remove(2)]),
+        ("removal of the last signature", vec![Op::Sign(0), Op::Remove(0)]),
+        ("removal of an absent key next to one signature", vec![Op::Sign(0), Op::Remove(2)]),
+        ("removal of one of two signatures", vec![Op::Sign(0), Op::Sign(1), Op::Remove(0)]),
+        ("signing twice with one key", vec![Op::Sign(0), Op::Sign(0)]),
+        ("add_signature for a key that already signed", vec![Op::Sign(0), Op::AddSig(0)]),
+    ];
+    let named_results: Vec<Value> = named
+        .iter()
+        .map(|(label, h)| {
+            let a = Acc::default();
+            let o = run_history(&a, &bases[0], h);
+            let fps: Vec<String> = a.violations.lock().unwrap().keys().cloned().collect();
+            json!({"scenario": label, "history": h.iter().map(|o| o.describe()).collect::<Vec<_>>(),
+                   "outcome": match o { Outcome::State(_) => "oracle holds", Outcome::Violation => "violation", Outcome::Skip => "call returned Err" }, "fingerprints": fps})
+        })
+        .collect();
+
     let viols = std::mem::take(&mut *acc.violations.lock().unwrap());
     let mut order: Vec<(&String, &Best)> = viols.iter().collect();
     order.sort_by_key(|(fp, b)| (rank(&b.hist), (*fp).clone()));
     for (fp, b) in order {
-        ctx.violation(fp.clone(), format!("{} (shortest history: {:?})", b.what, b.hist.iter().map(|o| o.describe()).collect::<Vec<_>>()), b.extra.clone());
+        let mut extra = b.extra.clone();
+        extra["shortest_histories_with_this_fingerprint"] = json!(b.shortest.iter().map(|x| json!({"base": x.1.split(':').next(), "history": x.2})).collect::<Vec<_>>());
+        ctx.violation(fp.clone(), format!("{} (shortest history: {:?})", b.what, b.hist.iter().map(|o| o.describe()).collect::<Vec<_>>()), extra);
         for _ in 1..b.count {
             ctx.violation(fp.clone(), "", Value::Null);
         }
@@ -348,6 +380,7 @@ pub fn run(ctx: Ctx) -> ! {
         "max_witnesses_in_a_state" => acc.max_witnesses.load(Ordering::Relaxed),
         "removals_that_removed_a_witness" => acc.removals_that_removed.load(Ordering::Relaxed),
         "sign_or_add_on_a_key_already_listed" => acc.replacements.load(Ordering::Relaxed),
+        "named_scenarios" => named_results,
         "calls_returning_err" => json!(*acc.op_errs.lock().unwrap()),
         "distinct_outcomes" => 1 + viols.len(),
         "exhaustive" => true,
